@@ -132,12 +132,15 @@ struct Exec {
             g_src.reset(plan.content_seed);
             g_src.script.assign(h.begin(), h.end());
             unsigned char hdr[24];
-            const unsigned char *kp = s.key;
+            // the caller's key sits at any address (a field of a packed record, an offset in a larger buffer)
+            alignas(16) unsigned char keybuf[32 + 16];
+            memcpy(keybuf + (plan.state_align >> 8 & 15), s.key, 32);
+            const unsigned char *kp = keybuf + (plan.state_align >> 8 & 15);
             if (plan.key_in_state & 1) { memcpy(s.ps().k, s.key, 32); kp = s.ps().k; res.count("probe.key_argument_inside_state"); } // a chained session re-keyed from its own state
             { LibScope l; crypto_secretstream_xchacha20poly1305_init_push(&s.ps(), hdr, kp); }
             memcpy(s.header, hdr, 24);
             if (memcmp(hdr, h.data(), 24) != 0) res.fail("header-not-from-source", "init_push", "header differs from the bytes served by the random source", step);
-            kp = s.key;
+            kp = keybuf + (plan.state_align >> 8 & 15);
             if (plan.key_in_state & 2) { memcpy(s.pl().k, s.key, 32); kp = s.pl().k; }
             { LibScope l; crypto_secretstream_xchacha20poly1305_init_pull(&s.pl(), s.header, kp); }
             ref::stream_init(s.model_push, s.header, s.key);
@@ -545,6 +548,9 @@ struct C09 {
         Rng r(mix64(seed, batch), "pknobs");
         Json pk = Json::object();
         pk["cpu_disable"] = cpu_masks()[r.below(cpu_masks().size())];
+        // the two batches that carry the single >4 GiB chunk (thorough tier): once on the portable back ends, once with everything the CPU has
+        if (batch % 100000000ULL == 6) pk["cpu_disable"] = cpu_masks().back();
+        if (batch % 100000000ULL == 7) pk["cpu_disable"] = 0u;
         return pk;
     }
     static void proc_setup(const Json &pk) {
@@ -572,7 +578,7 @@ struct C09 {
         p.pk = pk;
         p.content_seed = mix64(rs, 0xc0117e17);
         p.sessions = (int) (knobs.below(10) < 5 ? 1 : knobs.below(10) < 7 ? 2 : 3);
-        p.state_align = (uint32_t) knobs.below(256);
+        p.state_align = (uint32_t) knobs.below(4096); // bits 0-3 / 4-7: state objects, bits 8-11: the key argument
         p.key_in_state = knobs.chance(1, 6) ? (uint32_t) knobs.range(1, 3) : 0;
         p.stack_fill = (uint32_t) knobs.below(4);
         p.header_kind = knobs.chance(1, 8) ? (uint32_t) knobs.range(1, 3) : 0;
@@ -596,7 +602,7 @@ struct C09 {
             Op g; g.kind = OP_GIANT; g.mlen = (uint32_t) ops.below(300); g.adlen = (uint32_t) ops.below(200);
             p.ops.push_back(g);
         }
-        if (thorough && run % 400 == 0 && (run % 40000000000ULL) / 400 == 6) { // once per binary: a single chunk of more than 4 GiB
+        if (thorough && run % 400 == 0 && ((run % 40000000000ULL) / 400 == 6 || (run % 40000000000ULL) / 400 == 7)) { // twice per binary (portable / full CPU): a single chunk of more than 4 GiB
             Op g; g.kind = OP_GIANT_MSG; g.mlen = (uint32_t) ops.below(200);
             p.ops.push_back(g);
         }
